@@ -352,18 +352,25 @@ def flatInsert (S : Schema) (ins : List Node) (parent : Option TypeId) (level : 
     | some true => go
     | some false => .ok none
 
-/-- `insert_into(content, dist, insert, parent)` — with the receiving node checked at every level
-    below the top (the documented mechanism; the top call from `Slice.insert_at` has no parent). -/
+/-- `insert_into(content, dist, insert, parent, open_start, open_end)`: the receiving node is
+    checked (`can_replace`) when it is complete in the slice; a child on an open side of the slice
+    (first child while `oa > 0`, last child while `ob > 0`) is only partly present and is validated
+    when the slice is placed, so no check happens for it.  The top call from `Slice.insert_at` has no
+    parent. -/
 def insertInto (S : Schema) (ins : List Node) :
-    (parent : Option TypeId) → (level : List Node) → (d0 idx : Nat) → (rest : List Node) → (d : Nat) → Res (Option (List Node))
-  | parent, level, d0, idx, [], d =>
+    (parent : Option TypeId) → (level : List Node) → (d0 idx : Nat) → (rest : List Node) → (d oa ob : Nat) →
+      Res (Option (List Node))
+  | parent, level, d0, idx, [], d, _, _ =>
     if d = 0 then flatInsert S ins parent level d0 idx else .error .valueError
-  | parent, level, d0, idx, n :: ns, d =>
+  | parent, level, d0, idx, n :: ns, d, oa, ob =>
     if d = 0 then flatInsert S ins parent level d0 idx
-    else if n.size ≤ d then insertInto S ins parent level d0 (idx + 1) ns (d - n.size)
+    else if n.size ≤ d then insertInto S ins parent level d0 (idx + 1) ns (d - n.size) oa ob
     else match n with
       | .elem ty a m kids =>
-        match insertInto S ins (some ty) kids (d - 1) 0 kids (d - 1) with
+        let atS := decide (0 < oa) && idx == 0
+        let atE := decide (0 < ob) && idx == level.length - 1
+        match insertInto S ins (if atS || atE then none else some ty) kids (d - 1) 0 kids (d - 1)
+            (if atS then oa - 1 else 0) (if atE then ob - 1 else 0) with
         | .ok (some inner) => .ok (some (level.set idx (.elem ty a m inner)))
         | .ok none => .ok none
         | .error e => .error e
@@ -371,7 +378,8 @@ def insertInto (S : Schema) (ins : List Node) :
 
 /-- `Slice.insert_at(pos, fragment)`; `.ok none` = "Content does not fit in gap" -/
 def Slice.insertAt (S : Schema) (sl : Slice) (pos : Nat) (frag : List Node) : Res (Option Slice) :=
-  match insertInto S frag none sl.content (pos + sl.openStart) 0 sl.content (pos + sl.openStart) with
+  match insertInto S frag none sl.content (pos + sl.openStart) 0 sl.content (pos + sl.openStart)
+      sl.openStart sl.openEnd with
   | .ok (some c) => .ok (some ⟨c, sl.openStart, sl.openEnd⟩)
   | .ok none => .ok none
   | .error e => .error e
